@@ -3,14 +3,19 @@ import Verif.C13.Model
 /-!
 Line protocol of `c13driver` (see checks/c13.py for the generator side).
 
-  dense <lat> <k> <sched> <n> <edges> <entry> <transfers>
-      lat ∈ or|and|cp|nil   facts = vectors of k element codes `c.c.c`
+  dense <lat>[@dm|@map] <k> <sched> <n> <edges> <entry> <transfers>
+      lat ∈ or|and|cp|nil|ao   facts = vectors of k element codes `c.c.c`
+      `@dm` / `@map`: the solver model runs over `dmLat` / `mapLat` facts (DenseMapLattice
+      slices / MapLattice maps, `Equals` coarser than equality), the transfers working on the
+      shortest representative as the Go harness does; without suffix over canonical k-vectors
       sched ∈ lo|hi|r<seed>  (which queued node is processed next)
       edges `s>t,s>t,…`|-    entry `node=fact;…`|-   transfers: one per edge, `;`-separated,
       each `id` or `,`-separated ops  s.x.c | c.x.y | m.x.y.z | j.x.y.c | a.x.y.c | p.x.y.z
     → in=<fact>|…;out=<fact>|…;steps=<iterations>
   sparse <lat> <sched> <n> <nvals> <instrs> <init> <tabs>
-      lat ∈ bits<w>|cp|n5; instrs `kind:ops:refs;…`, kind ∈ phi|none|u<t>|b<t>|k<code>
+      lat ∈ bits<w>|cp|n5; instrs `kind:ops:refs[:pre:post];…`, kind ∈ phi|none|u<t>|b<t>|k<code>,
+      pre/post = constant mappings `v=c,…` the transfer returns before / after its own mapping
+      (multi-mapping transfers; the model is `SparseM`)
     → val=<code>,…;steps=<iterations>
   mapmerge <el> <a> <b>   maps `k=v,k=v`|-   → <merge sorted by key>;eq=<Equals a b>;panic=<0|1>
   dmmerge <el> <a> <b>    slices `v.v.v`|-    → <merge>;eq=<Equals a b>
@@ -38,6 +43,7 @@ def elemOf : String → Option Elem
   | "cp" => some ⟨flatLat, 10, true⟩
   | "nil" => some ⟨nilPairLat, 25, false⟩
   | "n5" => some ⟨nil5Lat, 5, false⟩
+  | "ao" => some ⟨aoLat, 4, false⟩
   | _ => none
 
 /-! ### the op language of edge transfers (all monotone over any lattice) -/
@@ -117,7 +123,34 @@ def parseEntry (el : Elem) (k n : Nat) (s : String) : Option (Nat × List Nat) :
 def parseTransfer (el : Elem) (k : Nat) (s : String) : Option (List Op) :=
   if s = "id" then some [] else (s.splitOn ",").mapM (parseOp el k)
 
-def denseCase (latN kS schedS nS edgesS entryS trsS : String) : Option String := do
+/-- run the solver model over fact type `F` and print the canonical k-vectors. -/
+def denseRun {F : Type} (lat : Lat F) (n : Nat) (edges : List (Nat × Nat)) (tr : Nat → F → F)
+    (entry : Nat → F) (pick : Nat → List Nat → Nat) (fuel : Nat) (canon : F → List Nat) : String :=
+  let edgeA := edges.toArray
+  let G : Dense.Graph :=
+    { n := n, m := edges.length
+      src := fun e => (edgeA.getD e (0, 0)).1, dst := fun e => (edgeA.getD e (0, 0)).2 }
+  let (s, steps) := Dense.run lat G tr pick fuel 0 (Dense.init lat G entry)
+  if (Dense.queued G s).length ≠ 0 then "nonterminating" else
+  let ins := "|".intercalate ((List.range n).map (fun b => showFact (canon (s.inF b))))
+  let outs := if edges.length = 0 then "-" else
+    "|".intercalate ((List.range edges.length).map (fun e => showFact (canon (s.outF e))))
+  s!"in={ins};out={outs};steps={steps}"
+
+/-- k-vector → shortest `DenseMapLattice` slice (trailing `Ident`s dropped) and back. -/
+def dmFrom (bot : Nat) (v : List Nat) : List Nat := (v.reverse.dropWhile (· == bot)).reverse
+def dmTo (bot k : Nat) (f : List Nat) : List Nat := (List.range k).map (fun i => f.getD i bot)
+/-- k-vector → `MapLattice` map without `Ident` values and back. -/
+def mapFrom (bot : Nat) (v : List Nat) : GoMap Nat :=
+  (List.range v.length).filterMap (fun i => let x := v.getD i bot; if x == bot then none else some (i, x))
+def mapTo (bot k : Nat) (m : GoMap Nat) : List Nat := (List.range k).map (fun i => (mlookup m i).getD bot)
+
+def denseCase (latS kS schedS nS edgesS entryS trsS : String) : Option String := do
+  let (latN, rep) ← match latS.splitOn "@" with
+    | [a] => some (a, "vec")
+    | [a, "dm"] => some (a, "dm")
+    | [a, "map"] => some (a, "map")
+    | _ => none
   let el ← elemOf latN
   let k ← kS.toNat?
   let n ← nS.toNat?
@@ -126,24 +159,23 @@ def denseCase (latN kS schedS nS edgesS entryS trsS : String) : Option String :=
   let entries ← (splitList ";" entryS).mapM (parseEntry el k n)
   let trs ← (splitList ";" trsS).mapM (parseTransfer el k)
   if trs.length ≠ edges.length ∨ n = 0 then none
-  let lat := vecLat el.lat k
-  let edgeA := edges.toArray
   let trA := trs.toArray
-  let G : Dense.Graph :=
-    { n := n, m := edges.length
-      src := fun e => (edgeA.getD e (0, 0)).1, dst := fun e => (edgeA.getD e (0, 0)).2 }
+  let botV := List.replicate k el.lat.bot
   let tr : Nat → List Nat → List Nat := fun e x => (trA.getD e []).foldl (applyOp el) x
   let entry : Nat → List Nat := fun b =>
     match entries.find? (fun p => p.1 == b) with
     | some p => p.2
-    | none => lat.bot
+    | none => botV
   let fuel := (n * (k * 8 + 2) + 1) * (n + 1) + n + 8
-  let (s, steps) := Dense.run lat G tr pick fuel 0 (Dense.init lat G entry)
-  if (Dense.queued G s).length ≠ 0 then return "nonterminating"
-  let ins := "|".intercalate ((List.range n).map (fun b => showFact (s.inF b)))
-  let outs := if edges.length = 0 then "-" else
-    "|".intercalate ((List.range edges.length).map (fun e => showFact (s.outF e)))
-  some s!"in={ins};out={outs};steps={steps}"
+  let bot := el.lat.bot
+  match rep with
+  | "dm" =>
+    some (denseRun (dmLat el.lat) n edges (fun e a => dmFrom bot (tr e (dmTo bot k a)))
+      (fun b => dmFrom bot (entry b)) pick fuel (dmTo bot k))
+  | "map" =>
+    some (denseRun (mapLat el.lat) n edges (fun e a => mapFrom bot (tr e (mapTo bot k a)))
+      (fun b => mapFrom bot (entry b)) pick fuel (mapTo bot k))
+  | _ => some (denseRun (vecLat el.lat k) n edges tr entry pick fuel id)
 
 /-! ### sparse -/
 
@@ -172,13 +204,33 @@ def parseSpec (size ntab : Nat) (s : String) : Option Spec :=
     if c < size then some (.const c) else none
   else none
 
-def parseInstr (size ntab n nvals : Nat) (s : String) : Option (Spec × List Nat × List Nat) :=
-  match s.splitOn ":" with
-  | [k, ops, refs] => do
+def parseXMap (size nvals : Nat) (s : String) : Option (Nat × Nat) :=
+  match s.splitOn "=" with
+  | [v, c] => do
+    let v ← v.toNat?; let c ← c.toNat?
+    if v < nvals ∧ c < size then some (v, c) else none
+  | _ => none
+
+structure Instr where
+  spec : Spec
+  ops : List Nat
+  refs : List Nat
+  pre : List (Nat × Nat)
+  post : List (Nat × Nat)
+
+def parseInstr (size ntab n nvals : Nat) (s : String) : Option Instr :=
+  let go (k ops refs pre post : String) : Option Instr := do
     let k ← parseSpec size ntab k
     let ops ← parseNats "," ops
     let refs ← parseNats "," refs
-    if ops.all (· < nvals) ∧ refs.all (· < n) then some (k, ops, refs) else none
+    let pre ← (splitList "," pre).mapM (parseXMap size nvals)
+    let post ← (splitList "," post).mapM (parseXMap size nvals)
+    -- a phi has no transfer of its own
+    let okX : Bool := match k with | .phi => pre.isEmpty && post.isEmpty | _ => true
+    if ops.all (· < nvals) ∧ refs.all (· < n) ∧ okX = true then some ⟨k, ops, refs, pre, post⟩ else none
+  match s.splitOn ":" with
+  | [k, ops, refs] => go k ops refs "-" "-"
+  | [k, ops, refs, pre, post] => go k ops refs pre post
   | _ => none
 
 def parseTab (size : Nat) (s : String) : Option (Bool × List Nat) :=
@@ -208,37 +260,37 @@ def sparseCase (latN schedS nS nvS instrS initS tabS : String) : Option String :
   let inits ← (splitList "," initS).mapM (parseInit size n nvals)
   if instrs.length ≠ n ∨ nvals < n then none
   -- a unary spec must name a unary table, a binary spec a binary one with two operands
-  let okSpec := instrs.all (fun (k, ops, _) =>
-    match k with
+  let okSpec := instrs.all (fun ins =>
+    match ins.spec with
     | .un t => (tabs.getD t (true, [])).1 == false
-    | .bin t => (tabs.getD t (false, [])).1 == true && ops.length == 2
+    | .bin t => (tabs.getD t (false, [])).1 == true && ins.ops.length == 2
     | _ => true)
   if !okSpec then none
   let instrA := instrs.toArray
   let tabA := tabs.toArray
-  let spec : Nat → Spec := fun i => (instrA.getD i (.none, [], [])).1
-  let P : Sparse.Prog Nat :=
+  let dflt : Instr := ⟨.none, [], [], [], []⟩
+  let P : SparseM.Prog Nat :=
     { n := n
-      kind := fun i => match spec i with
-        | .phi => .phi
-        | .none => .none
-        | _ => .op
-      ops := fun i => (instrA.getD i (.none, [], [])).2.1
-      refs := fun i => (instrA.getD i (.none, [], [])).2.2
+      isPhi := fun i => match (instrA.getD i dflt).spec with
+        | .phi => true
+        | _ => false
+      edges := fun i => (instrA.getD i dflt).ops
+      refs := fun i => (instrA.getD i dflt).refs
       tr := fun i val =>
-        let ops := (instrA.getD i (.none, [], [])).2.1
-        match spec i with
-        | .un t => (tabA.getD t (false, [])).2.getD (ops.foldl (fun d v => lat.merge d (val v)) lat.bot) 0
-        | .bin t => (tabA.getD t (true, [])).2.getD (val (ops.getD 0 0) * size + val (ops.getD 1 0)) 0
-        | .const c => c
-        | _ => lat.bot }
+        let ins := instrA.getD i dflt
+        let own : List (Nat × Nat) := match ins.spec with
+          | .un t => [(i, (tabA.getD t (false, [])).2.getD (ins.ops.foldl (fun d v => lat.merge d (val v)) lat.bot) 0)]
+          | .bin t => [(i, (tabA.getD t (true, [])).2.getD (val (ins.ops.getD 0 0) * size + val (ins.ops.getD 1 0)) 0)]
+          | .const c => [(i, c)]
+          | _ => []
+        ins.pre ++ own ++ ins.post }
   let val0 : Nat → Nat := fun v =>
     match inits.find? (fun p => p.1 == v) with
     | some p => p.2
     | none => lat.bot
-  let fuel := (n * (size + 2) + 1) * (n + 1) + n + 8
-  let (s, steps) := Sparse.run lat P nvals pick fuel 0 (Sparse.init P val0)
-  if (Sparse.queued P s).length ≠ 0 then return "nonterminating"
+  let fuel := (nvals * (size + 2) + 1) * (n + 1) + n + 8
+  let (s, steps) := SparseM.run lat P nvals pick fuel 0 (SparseM.init P val0)
+  if (SparseM.queued P s).length ≠ 0 then return "nonterminating"
   let vals := ",".intercalate ((List.range nvals).map (fun v => toString (s.val v)))
   some s!"val={vals};steps={steps}"
 
